@@ -73,7 +73,7 @@ def cases(tier, inst):
             yield ("c10", k)
     seen = set()
     for c in c12.cases(tier, inst):
-        k = c[:4]
+        k = c[:-1]              # without the caching flag (the configuration is this check's own dimension)
         if k not in seen:
             seen.add(k)
             yield ("c12", k)
@@ -90,7 +90,10 @@ def cases(tier, inst):
 def observe(fam, c, inst, caching):
     """-> list of observations (each a sorted list of (row, count) or an EXC tuple), all_selected flag"""
     if fam == "c12":
-        out, exp = c12.make_and_eval_twice(c + (caching,), inst)
+        if c[0] == "zjoin":
+            out, exp = c12.join_make_and_eval_twice(c + (caching,), inst)
+        else:
+            out, exp = c12.make_and_eval_twice(c + (caching,), inst)
         return [o if is_exc(o) or (o and o[0] == "build") else sorted(Counter(o).items()) for o in out], True
     if fam == "c02":
         q, wspec, pre = c02.query_of(c), c02.world_of(c), ()
